@@ -226,6 +226,11 @@ func (env *SpecEnv) btreeSpec(name string, n *ast.CallExpr) (SV, bool) {
 			return v, true
 		}
 		return intSV(intLit(0)), true
+	case "produceFailed":
+		if v, ok := st.ghost["$produceFailed"]; ok {
+			return v, true
+		}
+		return boolSV(tFalse), true
 	case "selected":
 		if v, ok := st.ghost["$selected"]; ok {
 			return v, true
